@@ -17,7 +17,16 @@ CHECK = {'level': 'model_checking',
             'rewrite': {'sync': ['internal', 'sdk']},
             'gomaxprocs': 2,
             'shards': {'quick': 16, 'thorough': 16},
-            'timeout': {'quick': 1200, 'thorough': 3400}}]}
+            'timeout': {'quick': 1200, 'thorough': 3400}},
+           {'name': 'race',
+            'pkg': './internal/verifh/core',
+            'run': '^TestVerifC04$',
+            'race': True,
+            'tiers': ['thorough'],
+            'env': {'VERIF_FREE': '1', 'VERIF_PART': 'S', 'GORACE': 'halt_on_error=0 exitcode=0 log_path={scratch}/race'},
+            'shards': {'quick': 8, 'thorough': 8},
+            'timeout': {'quick': 900, 'thorough': 2400}}
+    ]}
 
 META = {'engines': 'E0 E1 E2 E3',
  'technique': 'explicit-state BFS over token histories vs tree model; exhaustive single-fault and crash-point '
